@@ -615,7 +615,13 @@ impl Ctx {
     /// pick a count by tier
     pub fn n(&self, quick: u64, thorough: u64) -> u64 {
         if self.quick() {
-            quick
+            // cheap-per-case properties get a few seconds' worth of cases in the quick tier as well
+            let scale = match self.prop.as_str() {
+                "C05" | "C08" | "C13" | "C14" | "C17" | "C18" | "C20" => 4,
+                "C04" | "C07" | "C09" | "C10" | "C11" | "C19" => 3,
+                _ => 1,
+            };
+            quick * scale
         } else {
             // the random stages of these properties are cheap per case: the thorough tier spends minutes, not seconds, on them
             let scale = match self.prop.as_str() {
